@@ -8,6 +8,7 @@
 #[allow(dead_code)]
 mod ast;
 mod model;
+mod v0host;
 
 use ast::{ExportKind, Func, FuncType, Import, Instr, Module, VT};
 use concordium_contracts_common::{AccountAddress, Address, Amount, ChainMetadata, ContractAddress, OwnedEntrypointName, OwnedReceiveName, Timestamp};
@@ -707,6 +708,8 @@ fn run_engine(cli: &Cli, report: &Report) {
     report.set_extra("script_cases", json!(scripts.len()));
     let p7 = ctx(P7);
     scripts.par_iter().for_each(|s| check_script(report, s, &p7, &mem0, false));
+    // ---- the legacy (v0) interface -------------------------------------------------------------
+    v0host::run_v0(report, cli.tier, &mem0);
 }
 
 fn main() {
@@ -727,6 +730,5 @@ fn main() {
     report.set_rule("one case = one generated contract executed once (plus, for a sixteenth of the successful single calls and all context cases, twice more with the exact and the exact-minus-one energy budget): the outcome (success with return value, logs and final state / trap / out of energy / interrupt with payload) must be one the model allows, no panic, and every completed host call charges at least its scheduled energy");
     report.assume("secp256k1 verification is only exercised with invalid signatures (the engine is built against a stand-in for the uncached secp256k1 crate); ed25519 goes through ed25519-dalek in both the stand-in and the model");
     report.assume("energy the model cannot bound from the documentation (trie traversal steps) is treated as a lower bound: charged >= scheduled");
-    report.assume("v0 host functions are not enumerated (see DESIGN.md C14)");
     report.finish(true, json!({"functions": ALL.len(), "tier": format!("{:?}", cli.tier)}));
 }
